@@ -279,6 +279,27 @@ pub struct Cfg {
     pub fs_in: usize,
     pub fs_out: usize,
     pub sub_chunks: usize,
+    /// sinc types: which interpolation kernel drives the resampler (Auto = the constructor's own run-time
+    /// dispatch; otherwise the public kernel type is built explicitly and passed to new_with_interpolator)
+    pub kernel: Kernel,
+}
+
+#[derive(Clone, Copy, Debug, PartialEq, Eq, Hash)]
+pub enum Kernel {
+    Auto,
+    Scalar,
+    Sse,
+    Avx,
+}
+impl Kernel {
+    pub fn name(self) -> &'static str {
+        match self {
+            Kernel::Auto => "auto",
+            Kernel::Scalar => "scalar",
+            Kernel::Sse => "sse",
+            Kernel::Avx => "avx",
+        }
+    }
 }
 
 impl Default for Cfg {
@@ -298,6 +319,7 @@ impl Default for Cfg {
             fs_in: 44100,
             fs_out: 48000,
             sub_chunks: 1,
+            kernel: Kernel::Auto,
         }
     }
 }
@@ -400,6 +422,9 @@ impl Cfg {
             o.set("oversampling", J::u(self.oversampling));
             o.set("interp", J::s(self.interp.name()));
             o.set("window", J::s(self.window.name()));
+            if self.kernel != Kernel::Auto {
+                o.set("interpolator_kernel", J::s(self.kernel.name()));
+            }
         }
         if self.kind.is_fast() {
             o.set("degree", J::s(self.degree.name()));
@@ -633,6 +658,10 @@ pub fn gen_cfg_kind(rng: &mut Rng, p: &GenProfile, kind: Kind) -> Cfg {
             1 => 0.95,
             _ => rng.uf(0.5, 1.0) as f32,
         };
+        // 12 %: an explicitly chosen kernel through new_with_interpolator (what a CPU without AVX / SSE3 runs)
+        if rng.chance(0.12) {
+            c.kernel = *rng.pick(&[Kernel::Scalar, Kernel::Scalar, Kernel::Sse, Kernel::Avx]);
+        }
     }
     if kind.is_fast() {
         c.degree = *rng.pick(&ALL_DEG);
